@@ -494,15 +494,19 @@ func (c *Client) Close() error {
 	}
 	c.closed = true
 	c.mux.Unlock()
-	if closeErr := c.collector.Close(); closeErr != nil {
-		return closeErr
-	}
+	// The connection is closed first: that ends a Read or Write that is blocked
+	// in it. A retransmission blocked in Write runs on the collector goroutine,
+	// which collector.Close waits for, so closing the connection only
+	// afterwards could never be reached.
+	close(c.close)
 	var connErr error
-	agentErr := c.a.Close()
 	if c.closeConn {
 		connErr = c.c.Close()
 	}
-	close(c.close)
+	if closeErr := c.collector.Close(); closeErr != nil {
+		return closeErr
+	}
+	agentErr := c.a.Close()
 	c.wg.Wait()
 	if agentErr == nil && connErr == nil {
 		return nil
